@@ -242,7 +242,11 @@ func c05LibraryContexts(c C05Case, mask int, k, full interface{}, r *Rec) *Viola
 			if e0, co := SafeCompile(cc, src0); co.Panic == nil && co.Err == nil {
 				for _, ctx := range []*eval.Ctx{nil, {}} {
 					o := Safe(func() (eval.Value, error) { return e0.TryEval(ctx) })
-					if o.Panic != nil || o.Err != nil || !m.EqualVal(o.Val, full) {
+					if o.Panic != nil || o.Err != nil {
+						r.Class("library-context:none-refused") // (calling without a context / fetcher is not documented: refusing it is the engine's right)
+						continue
+					}
+					if !m.EqualVal(o.Val, full) {
 						return Violf("C05: a program without variables, tried with %s, does not return its value\nconfig=%s\nsrc=%s\nTryEval=%v\nvalue=%s", map[bool]string{true: "a nil *Ctx", false: "an empty Ctx"}[ctx == nil], maskName(mask), src0, o, refString(full, nil))
 					}
 				}
